@@ -18,7 +18,7 @@ NOT_APPLICABLE = {
     "C11": "one caller-supplied file handle written/read in a single pass with no retry or partial-write handling, and the property assigns no meaning to I/O faults; fault-free it is a pure function of the tree and options",
     "C15": "Walker.walk is a pure function of (tree, start, end); no state, fault or interleaving",
 }
-PENDING = {p: 'check not yet built in this round (planned, see DESIGN.md section 4)' for p in ('C12','C13','C14')}
+PENDING = {}
 
 TECH = {
     "C01": "deterministic simulation: seeded operation histories x hook-fault injection (once/multi/persistent, all 8 hooks, BaseException too) with fault-position sweeps, C01 invariant after every call, both ANYTREE_ASSERTIONS settings",
@@ -34,7 +34,13 @@ TECH.update({
 TECH["C20"] = "deterministic simulation: seeded histories interleaving structural calls (with hook faults) and attribute writes/reads on links, links-to-links and targets; forest reference model + attribute-store model checked on every node after every step"
 TECH["C08"] = "deterministic simulation: seeded call histories of a resolver pool sharing the class-wide pattern cache (knob _MAXCACHE randomised, evictions forced), interleaved with tree mutations; every call judged by a stateless regex-free reference glob plus strict/relaxed and glob/get agreement"
 TECH["C19"] = "deterministic simulation: snapshot/restore (pickle protocols 0-5, deepcopy) at arbitrary points of seeded histories incl. never-observed (lazy) states, restore in-process and in a fresh interpreter, then mutation of either side; isomorphism, identity-disjointness, consistency and mutual-independence oracles"
+TECH["C12"] = "deterministic simulation: one stateful exporter object iterated by several interleaved lazy cursors (seeded scheduler picks which cursor steps), in sessions separated by tree mutations; emitted lines judged against the admitted sub-forest, identifier map checked for injectivity and stability across cursors and sessions"
+TECH["C13"] = TECH["C12"] + "; to_file through an in-memory codecs.open"
+TECH["C14"] = "deterministic simulation: pools of query objects re-issued to search and cachedsearch across seeded mutation/attribute-write histories; reference filtered pre-order + count rule; cached == uncached at every point"
 NOTE = {
+    "C12": "trusts the harness's admitted-set reference (sim/srch.py ref_preorder) and text prediction; known finding C12-1 is matched by the exact set of extra edges to stopped children",
+    "C13": "as C12; identifiers learnt from node lines by position",
+    "C14": "fastcache absent: only the pass-through behaviour of the cache layer is observable here",
     "C08": "trusts the reference glob (sim/rglob.py RefGlob, dynamic-programming wildcard match); ASCII names with ignorecase; strict mode only on sibling-unique names",
     "C19": "trusts the reach-order walk pairing original (by model) and copy (by real links); fresh-interpreter restores are sampled in quick tier and complete in thorough tier",
     "C20": "trusts the forest and attribute-store reference models; C01's invariant is reported here as C20's own clause, C03's rollback clauses are judged by C03's check (whose class menus include the link classes), not here",
